@@ -443,6 +443,81 @@ def main():
 
     body_def("stampAfterDiscovery", ": Bool", stamp_builder, "false")
 
+    # ---- control-flow shapes the models are built on (statement structure, read off the AST) ----
+    def handlers_of(fn, exc_name):
+        return [h for n in ast.walk(fn) if isinstance(n, ast.Try) for h in n.handlers if h.type is not None and exc_name in ast.unparse(h.type)]
+
+    def send_retry_builder():
+        # Client._send: the request is repeated ONCE after NotInTimeWindow — by `_send_once`, not by `_send`
+        fn = func_ast(RAW.Client._send)
+        hs = handlers_of(fn, "NotInTimeWindow")
+        if len(hs) != 1:
+            return "false"
+        calls = [ast.unparse(c.func) for n in hs[0].body for c in ast.walk(n) if isinstance(c, ast.Call)]
+        sends = [c for c in calls if c.startswith("self._send")]
+        loops = [n for n in ast.walk(fn) if isinstance(n, (ast.While, ast.For, ast.AsyncFor))]
+        return "true" if sends == ["self._send_once"] and not loops else "false"
+
+    body_def("retryOnceShape", ": Bool", send_retry_builder, "false")
+
+    def id_check_builder():
+        # Client._send_once: the id check follows the decoding, unconditionally, before the return
+        fn = func_ast(RAW.Client._send_once)
+        top = [ast.unparse(st) for st in fn.body]
+        i_dec = [i for i, t in enumerate(top) if "self.mpm.decode(" in t]
+        i_val = [i for i, t in enumerate(top) if t.startswith("validate_response_id(request_id, response.value.request_id)")]
+        i_ret = [i for i, t in enumerate(top) if t.startswith("return")]
+        ok = len(i_dec) == 1 and len(i_val) == 1 and len(i_ret) == 1 and i_dec[0] < i_val[0] < i_ret[0] and top[i_ret[0]] == "return response"
+        return "true" if ok else "false"
+
+    body_def("idCheckedBeforeReturn", ": Bool", id_check_builder, "false")
+
+    def reconfigure_builder():
+        # Client.reconfigure: old config and mpm are put back in a `finally` around configure + yield
+        fn = func_ast(RAW.Client.reconfigure)
+        tries = [n for n in fn.body if isinstance(n, ast.Try)]
+        if len(tries) != 1 or tries[0].handlers:
+            return "false"
+        t = tries[0]
+        body = [ast.unparse(x) for x in t.body]
+        fin = sorted(ast.unparse(x) for x in t.finalbody)
+        saved = sorted(ast.unparse(x) for x in fn.body if isinstance(x, ast.Assign))
+        ok = body == ["self.configure(**kwargs)", "yield"] and fin == ["self.config = old_config", "self.mpm = old_mpm"] and saved == ["old_config = self.config", "old_mpm = self.mpm"]
+        return "true" if ok else "false"
+
+    body_def("reconfigureRestoresInFinally", ": Bool", reconfigure_builder, "false")
+
+    def udp_close_builder():
+        # send_udp: every attempt's transport is closed in a `finally` of the try around get_data
+        fn = func_ast(TR.send_udp)
+        loops = [n for n in ast.walk(fn) if isinstance(n, ast.While)]
+        if len(loops) != 1:
+            return "false"
+        tries = [n for n in loops[0].body if isinstance(n, ast.Try)]
+        if len(tries) != 1:
+            return "false"
+        fin = [ast.unparse(x) for x in tries[0].finalbody]
+        opened = [ast.unparse(x) for x in loops[0].body if isinstance(x, ast.Assign) and "create_datagram_endpoint" in ast.unparse(x)]
+        return "true" if fin == ["transport.close()"] and len(opened) == 1 and opened[0].replace("(", "").replace(")", "").startswith("transport, protocol =") else "false"
+
+    body_def("udpClosesInFinally", ": Bool", udp_close_builder, "false")
+
+    def trap_stateless_builder():
+        # register_trap_callback: the message-processing model is created inside the per-datagram
+        # closure (nothing is carried from one datagram to the next), and the source is attached
+        fn = func_ast(RAW.register_trap_callback)
+        inner = [n for n in fn.body if isinstance(n, ast.FunctionDef) and n.name == "decode"]
+        if len(inner) != 1:
+            return "false"
+        d = inner[0]
+        text = [ast.unparse(x) for x in d.body]
+        creates = [t for t in text if "mpm.create(" in t]
+        nonlocal_ = [n for n in ast.walk(d) if isinstance(n, (ast.Nonlocal, ast.Global))]
+        lcd_inside = any(t.startswith("lcd") for t in text)
+        return "true" if len(creates) == 1 and not nonlocal_ and lcd_inside else "false"
+
+    body_def("trapDecoderStateless", ": Bool", trap_stateless_builder, "false")
+
     # ---- reflected data --------------------------------------------------------------
     def fact(name, typ, builder, stub):
         try:
